@@ -222,8 +222,8 @@ func (c c01) lineages(ctx *core.Ctx, cfgs []dbCfg, all bool) {
 			cases = append(cases, core.J(c01Case{Flavor: "C06", Init: ci, Path: append(append([]dbOp{}, l...), cmp), Ops: []dbOp{cmp, {Op: "reopen", C: ci}}}))
 		}
 	}
-	// interleaved histories: every word T^i Compact T^j Compact [T^k Compact] Reopen with at most nt single-key tables
-	// in total, each T one of {Put(a|b, x|Y300), Delete(a|b)} followed by a flush; reads are compared with the reference
+	// interleaved histories: every word T^i Compact T^j Compact [T^k Compact] Flush(c) Reopen with at most nt single-key tables
+	// in total, each T one of {Put(a|b, x|Y300), Put(a, W300), Delete(a|b)} followed by a flush (and the single-cycle words with the maximal number of tables); reads are compared with the reference
 	// after every step (and around every cycle)
 	nt, nc := 4, 2
 	if ctx.Tier == "thorough" {
@@ -233,15 +233,19 @@ func (c c01) lineages(ctx *core.Ctx, cfgs []dbCfg, all bool) {
 	for kk := 0; kk < 2; kk++ {
 		topts = append(topts, dbOp{Op: "putrot", K: kk, V: 0}, dbOp{Op: "putrot", K: kk, V: 1}, dbOp{Op: "delrot", K: kk})
 	}
+	// a second large value for a: two large (unselected) tables that hold different values of one key
+	topts = append(topts, dbOp{Op: "putrot", K: 0, V: 3})
 	nwords := 0
 	var words func(cur []dbOp, tUsed, cUsed int)
 	words = func(cur []dbOp, tUsed, cUsed int) {
-		if cUsed >= 2 && cur[len(cur)-1].Op == "cmp" {
+		if (cUsed >= 2 || (cUsed == 1 && tUsed == nt)) && cur[len(cur)-1].Op == "cmp" {
 			for ci := range cfgs {
 				if ctx.Tier != "thorough" && (ci == 2 || ci == 3) {
 					continue // quick: the three configurations under which a cycle can exclude the oldest table
 				}
-				prog := append(append([]dbOp{}, cur...), dbOp{Op: "reopen", C: ci})
+				// after the last cycle one more flush of an unrelated key (the memstore that was flushed last keeps answering
+				// reads in front of the tables, which would mask what the cycle did to them), then a restart
+				prog := append(append([]dbOp{}, cur...), dbOp{Op: "putrot", K: 2, V: 0}, dbOp{Op: "reopen", C: ci})
 				cases = append(cases, core.J(c01Case{Flavor: "C06", Init: ci, Path: prog[:len(prog)-1], Ops: prog[len(prog)-1:], CheckAll: true}))
 			}
 			nwords++
